@@ -1,5 +1,5 @@
 (* C10: the limits check of MoleculeContainer.pack accepts every non-empty molecule within the format limits and
-   rejects atom numbers above 4095 and more than 15 neighbours *)
+   rejects atom numbers below 1 or above 4095 and more than 15 neighbours *)
 From Coq Require Import ZArith List Bool Lia ZifyBool.
 From Model Require Import PyBase Pack PackSpec PackApi.
 From Proofs Require Import PackBits PackRoundtrip PackRoundtripGraph PackRoundtripMol.
@@ -21,6 +21,21 @@ Proof. destruct l as [|x r]; [contradiction|]. intros _ H. cbn [py_max]. apply f
 Lemma py_max_ge l y : In y l -> y <= py_max l 0.
 Proof. destruct l as [|x r]; [contradiction|]. cbn [py_max]. destruct (fold_max_ge r x) as [H1 H2]. intros [H|H]; [subst; exact H1 | apply H2; exact H]. Qed.
 
+Lemma fold_min_ge (l : list Z) : forall x b, b <= x -> (forall y, In y l -> b <= y) -> b <= fold_left Z.min l x.
+Proof. induction l as [|y l IH]; intros x b Hx H; [exact Hx|]. cbn [fold_left]. apply IH; [pose proof (H y (or_introl eq_refl)); lia|]. intros z Hz. apply H. right. exact Hz. Qed.
+
+Lemma fold_min_le (l : list Z) : forall x, fold_left Z.min l x <= x /\ forall y, In y l -> fold_left Z.min l x <= y.
+Proof.
+  induction l as [|y l IH]; intros x; [cbn [fold_left]; split; [lia | contradiction]|]. cbn [fold_left].
+  destruct (IH (Z.min x y)) as [H1 H2]. split; [lia|]. intros z [Hz|Hz]; [subst; lia | apply H2; exact Hz].
+Qed.
+
+Lemma py_min_ge l b : l <> [] -> (forall y, In y l -> b <= y) -> b <= py_min l 1.
+Proof. destruct l as [|x r]; [contradiction|]. intros _ H. cbn [py_min]. apply fold_min_ge; [apply H; left; reflexivity|]. intros y Hy. apply H. right. exact Hy. Qed.
+
+Lemma py_min_le l y : In y l -> py_min l 1 <= y.
+Proof. destruct l as [|x r]; [contradiction|]. cbn [py_min]. destruct (fold_min_le r x) as [H1 H2]. intros [H|H]; [subst; exact H1 | apply H2; exact H]. Qed.
+
 (* within the limits the check passes: the API call is the .pyx packer *)
 Theorem mol_pack_within_limits m : pack_ok m = true -> pm_atoms m <> [] -> mol_pack true m = pack m.
 Proof.
@@ -29,21 +44,25 @@ Proof.
   assert (Hm : py_max (map pa_n (pm_atoms m)) 0 <= 4095).
   { apply py_max_le; [rewrite Ea; discriminate|]. intros y Hy. apply in_map_iff in Hy. destruct Hy as [a [Hn Ha]]. subst y.
     pose proof (graph_wf_num a _ W Ha). lia. }
-  destruct (4095 <? py_max (map pa_n (pm_atoms m)) 0) eqn:E1; [lia|].
+  assert (Hn : 1 <= py_min (map pa_n (pm_atoms m)) 1).
+  { apply py_min_ge; [rewrite Ea; discriminate|]. intros y Hy. apply in_map_iff in Hy. destruct Hy as [a [Hn Ha]]. subst y.
+    pose proof (graph_wf_num a _ W Ha). lia. }
+  destruct ((py_min (map pa_n (pm_atoms m)) 1 <? 1) || (4095 <? py_max (map pa_n (pm_atoms m)) 0)) eqn:E1; [lia|].
   destruct (existsb (fun a => (15 <? length (pa_nbrs a))%nat) (pm_atoms m)) eqn:E2; [|reflexivity].
   apply existsb_exists in E2. destruct E2 as [a [Ha Hl]]. pose proof (wf_nbrs_15 _ W a Ha). apply Nat.ltb_lt in Hl. lia.
 Qed.
 
 (* outside the checked limits: ValueError *)
 Theorem mol_pack_rejects m :
-  pm_atoms m = [] \/ (exists a, In a (pm_atoms m) /\ (4095 < pa_n a \/ (15 < length (pa_nbrs a))%nat)) ->
+  pm_atoms m = [] \/ (exists a, In a (pm_atoms m) /\ (pa_n a < 1 \/ 4095 < pa_n a \/ (15 < length (pa_nbrs a))%nat)) ->
   mol_pack true m = Err ValueError.
 Proof.
   intros H. unfold mol_pack, mol_pack_check. destruct (pm_atoms m) as [|a0 r] eqn:Ea; [reflexivity|]. rewrite <- Ea in *.
   destruct H as [H|[a [Ha H]]]; [rewrite Ea in H; discriminate|].
-  destruct (4095 <? py_max (map pa_n (pm_atoms m)) 0) eqn:E1; [reflexivity|].
+  destruct ((py_min (map pa_n (pm_atoms m)) 1 <? 1) || (4095 <? py_max (map pa_n (pm_atoms m)) 0)) eqn:E1; [reflexivity|].
   destruct (existsb (fun a => (15 <? length (pa_nbrs a))%nat) (pm_atoms m)) eqn:E2; [reflexivity|].
-  exfalso. destruct H as [H|H].
+  exfalso. destruct H as [H|[H|H]].
+  - pose proof (py_min_le (map pa_n (pm_atoms m)) (pa_n a) (in_map pa_n _ _ Ha)). lia.
   - pose proof (py_max_ge (map pa_n (pm_atoms m)) (pa_n a) (in_map pa_n _ _ Ha)). lia.
   - assert (existsb (fun a => (15 <? length (pa_nbrs a))%nat) (pm_atoms m) = true)
       by (apply existsb_exists; exists a; split; [exact Ha | apply Nat.ltb_lt; exact H]). congruence.
